@@ -138,13 +138,19 @@ func (s *prefixState) exec(c *ctx, op string) string {
 		})
 		c.emit(fmt.Sprintf("psetup %s %s", f[1], f[2]), oracle+" "+res)
 		return res
+	case "page": // page <seconds>: every lease recorded so far becomes that much older
+		d := time.Duration(atoi(f[1])) * time.Second
+		prefix.VerifAgeLeases(d)
+		aged += d
+		c.emit(op, "ok")
+		return "ok"
 	case "pmsg":
 		if s.h == nil {
 			return ""
 		}
-		t0 := time.Now().UnixNano()
+		t0 := vnow()
 		res := s.rawMsg(f[1:])
-		t1 := time.Now().UnixNano()
+		t1 := vnow()
 		c.emit(op, fmt.Sprintf("%d %d %s", t0, t1, res))
 		return res
 	}
@@ -232,6 +238,10 @@ func genPrefix(c *ctx) {
 			steps = 60
 		}
 		for i := 0; i < steps && c.count < c.n; i++ {
+			if c.rng.Intn(12) == 0 {
+				// time passes: half a lease, just over a lease (3600 s), a day
+				s.exec(c, fmt.Sprintf("page %d", []int{1800, 3601, 3700, 86400}[c.rng.Intn(4)]))
+			}
 			cl := clients[c.rng.Intn(nclients)]
 			if c.rng.Intn(40) == 0 {
 				cl = "-"
